@@ -184,3 +184,77 @@ def meta_constructors():
         except re.error as err:
             bad.append({"expr": e, "what": f"pattern does not compile: {err}", "pattern": str(p)[:200]})
     return {"evaluations": n, "failures": bad[:20]}
+
+
+# ---- text layer of the class algebra: complete finite decisions by data independence (F2) ------------------------------------
+SPECIALS = ["\\", "^", "[", "]", "-", "/"]
+REPS = SPECIALS + ["x", "y"]            # every character the functions single out, and two representatives of all the others
+
+
+def _cesc(c):
+    return "\\" + c if c in SPECIALS else c
+
+
+def split_range_decision():
+    """__split_range('a-b') == ['a', 'b'] for ALL characters a, b: the function only counts / splits at '-', so its behaviour is a
+    function of WHICH of a, b is '-' (side condition read off the AST by the caller); the four cases are run on the real code,
+    with two distinct representatives for 'any other character'.  Escaped end points ('\\a-b' ...) likewise, except '\\--\\-'."""
+    from pregex.core.classes import AnyLetter
+    import pregex.core.classes as cl
+    f = getattr(cl, "__Class")._Class__split_range
+    bad, n = [], 0
+    for a in REPS:
+        for b in REPS:
+            n += 1
+            if f(a + "-" + b) != [a, b]:
+                bad.append({"item": a + "-" + b, "got": f(a + "-" + b)})
+            for ea in (False, True):
+                for eb in (False, True):
+                    if not (ea or eb) or (ea and eb and a == "-" and b == "-"):
+                        continue
+                    n += 1
+                    s, e = ("\\" + a if ea else a), ("\\" + b if eb else b)
+                    if (ea and a not in SPECIALS) or (eb and b not in SPECIALS):
+                        continue            # not a shape the class layer writes
+                    if (not ea and a == "-" and eb) or (not eb and b == "-" and ea):
+                        continue            # a raw '-' end point next to an escaped one: never written (escaping is all or nothing)
+                    if f(s + "-" + e) != [s, e]:
+                        bad.append({"item": s + "-" + e, "got": f(s + "-" + e)})
+    return {"cases": n, "bad": bad[:10]}
+
+
+def modify_classes_decision():
+    """__modify_classes over every item shape and every singled-out character (+ two representatives of the rest), one item at a
+    time (the function maps item by item: side condition read off the AST): escape=True writes the escaped normal form of an
+    unescaped item; escape=False undoes exactly that; either way the item denotes the same characters as `re` reads them"""
+    import re
+    import pregex.core.classes as cl
+    f = getattr(cl, "__Class")._Class__modify_classes
+    bad, n = [], 0
+    uni = "".join(chr(c) for c in range(32, 127))
+
+    def den(item_escaped):
+        return set(re.findall("[" + item_escaped + "]", uni))
+    items = [(c, _cesc(c)) for c in REPS]
+    items += [(a + "-" + b, _cesc(a) + "-" + _cesc(b)) for a in REPS for b in REPS if ord(a) <= ord(b)]
+    for raw, esc in items:
+        n += 1
+        got = f({raw}, escape=True)
+        if got != {esc}:
+            bad.append({"item": raw, "escape": True, "got": sorted(got), "want": esc})
+        back = f({esc}, escape=False)
+        if back != {raw}:
+            bad.append({"item": esc, "escape": False, "got": sorted(back), "want": raw})
+        # R7 on the escaped form: it denotes the requested characters
+        want = set(chr(c) for c in range(ord(raw[0]), ord(raw[-1]) + 1)) & set(uni) if len(raw) == 3 else {raw}
+        if den(esc) != want:
+            bad.append({"item": esc, "what": "escaped form read differently by re", "got": sorted(den(esc))[:5]})
+    # several items at once: the result is the union of the item-wise results
+    import itertools, random
+    rnd = random.Random(3)
+    for _ in range(200):
+        pick = rnd.sample(items, rnd.choice([2, 3, 4]))
+        n += 1
+        if f({r for r, _ in pick}, escape=True) != {e for _, e in pick}:
+            bad.append({"items": [r for r, _ in pick], "what": "not item-wise"})
+    return {"cases": n, "bad": bad[:10]}
